@@ -133,9 +133,10 @@ PopKey(k) == /\ Step /\ DictDeclared /\ k \in KeysOf(names)
                 /\ objs' = RemoveAt(objs, i) /\ names' = RemoveAt(names, i) /\ Keep
                 /\ Rec("popkey", [k |-> k], names[i][2], 1, objs', names', value)
 \* objects.pop(k, default) for a name that is not there: the default comes back, nothing is removed
-PopKeyDefault(k) == /\ Step /\ DictDeclared /\ names # <<>> /\ k \notin KeysOf(names)
-                    /\ UNCHANGED <<objs, names, value, hsnap>>
-                    /\ Rec("popkeydefault", [k |-> k], 8, 2, objs, names, value)
+\* (the default x may itself be one of the current objects: it is still only handed back)
+PopKeyDefault(k, x) == /\ Step /\ DictDeclared /\ names # <<>> /\ k \notin KeysOf(names)
+                       /\ UNCHANGED <<objs, names, value, hsnap>>
+                       /\ Rec("popkeydefault", [k |-> k, x |-> x], x, 2, objs, names, value)
 \* ---- wholesale replacement ---------------------------------------------------------------
 Replace_(xs) == /\ Step /\ NoDup(xs) /\ Len(xs) <= MaxLen
                 /\ objs' = xs
@@ -169,7 +170,7 @@ Next == \/ \E x \in Objects : Append_(x) \/ Remove_(x) \/ SetValue(x)
         \/ PopLast \/ Clear_
         \/ \E k \in Keys, x \in Objects : SetKey(k, x)
         \/ \E prs \in Seqs(Pairs, 2), nkw \in 0..1 : (nkw <= Len(prs) /\ Update_(prs, nkw))
-        \/ \E k \in Keys : PopKey(k) \/ SetValueName(k) \/ PopKeyDefault(k)
+        \/ \E k \in Keys : PopKey(k) \/ SetValueName(k) \/ \E x \in Objects : PopKeyDefault(k, x)
 
 Spec == Init /\ [][Next]_vars
 
